@@ -1155,12 +1155,14 @@ class Formulas(Family):
 
     def evaluate(self, cases):
         exprs, lost = gen_cpals.formulas()
-        if lost:
-            # the cross-check of the translator's reading has nothing to read; the lost anchor itself is reported by
-            # the proof side (run.py treats it as a tie by correspondence only, at the thorough size)
-            return [Verdict("ok", f"translator lost anchors: {lost}", None, None, None, ["anchor-lost"], False) for _ in cases]
-        reqs, impls = [], []
-        for c in cases:
+        reqs, impls, skipped = [], [], set()
+        for k, c in enumerate(cases):
+            if c["name"] not in exprs:
+                # the cross-check of the translator's reading has nothing to read for this definition (the pinned one is
+                # in use); the lost anchor itself is reported by the proof side (run.py treats it as a tie by
+                # correspondence only, at the thorough size).  The definitions that WERE read are still cross-checked.
+                skipped.add(k)
+                continue
             e = exprs[c["name"]]
             params = e["params"]
             env = {"np": np, "sum": sum, "abs": abs}
@@ -1175,16 +1177,8 @@ class Formulas(Family):
                 if c["name"] in ("fit",):  # keep the divisor away from 0
                     vals = [v if v != 0 else 2.5 for v in vals]
                 for q, v in zip(scal, vals):
-                    if q == "normM":
-                        class _M:  # `M.norm()`
-                            def __init__(self, v):
-                                self.v = v
-
-                            def norm(self):
-                                return self.v
-                        env["M"] = _M(np.float64(v))
-                    else:
-                        env[q] = np.float64(v)
+                    # the translator hands out the expression over the parameter names (`M.norm()` is `normM`)
+                    env[q] = np.float64(v)
                 args = vals[:len(scal)]
             env["iteration"] = c["nat"]
             with np.errstate(all="ignore"):
@@ -1193,9 +1187,14 @@ class Formulas(Family):
                 val = np.asarray(val).reshape(-1)[0]
             impls.append(val)
             reqs.append({"op": "c09_formula", "name": c["name"], "args": [bits(v) for v in args], "nat": c["nat"]})
-        reps = drive(reqs)
+        reps = iter(drive(reqs) if reqs else [])
+        impls = iter(impls)
         out = []
-        for c, v, m in zip(cases, impls, reps):
+        for k, c in enumerate(cases):
+            if k in skipped:
+                out.append(Verdict("ok", f"translator lost anchors: {lost}", None, None, None, ["anchor-lost"], False))
+                continue
+            v, m = next(impls), next(reps)
             tags = [c["name"]]
             if "bool" in m:
                 ok = bool(v) == m["bool"]
